@@ -71,9 +71,9 @@ async fn parity_async(server: repe::AsyncServer) -> Result<Vec<repe::Message>, S
         if notify {
             continue;
         }
-        let resp = tokio::time::timeout(Duration::from_secs(5), repe::async_io::read_message_async(&mut stream))
+        let resp = tokio::time::timeout(Duration::from_secs(30), repe::async_io::read_message_async(&mut stream))
             .await
-            .map_err(|_| format!("async TCP: no response to request {id} within 5 s"))?
+            .map_err(|_| format!("async TCP: no response to request {id} within 30 s"))?
             .map_err(|e| format!("async TCP: response to request {id} is not well framed: {e}"))?;
         out.push(resp);
     }
@@ -86,7 +86,7 @@ fn parity_blocking(router: repe::Router) -> Result<Vec<repe::Message>, String> {
         let _ = repe::Server::new(router).serve(listener);
     });
     let mut stream = std::net::TcpStream::connect(addr).unwrap();
-    stream.set_read_timeout(Some(Duration::from_secs(5))).unwrap();
+    stream.set_read_timeout(Some(Duration::from_secs(30))).unwrap();
     let mut out = Vec::new();
     for (id, path, notify) in PARITY_REQS {
         repe::write_message(&mut stream, &parity_request(id, path, notify)).unwrap();
@@ -167,7 +167,7 @@ async fn async_forward_id_collision() -> Result<String, String> {
             }
         }
         let _ = seen_tx.send(requests.iter().map(|r| r.header.id).collect());
-        if go_rx.recv_timeout(Duration::from_secs(10)).is_err() {
+        if go_rx.recv_timeout(Duration::from_secs(60)).is_err() {
             return;
         }
         for req in requests.into_iter().rev() {
@@ -188,18 +188,18 @@ async fn async_forward_id_collision() -> Result<String, String> {
         let c = client.clone();
         calls.push(tokio::spawn(async move {
             let path = format!("/call/{n}");
-            let out = c.call_json_with_timeout(&path, &json!({"n": n}), Duration::from_secs(3)).await;
+            let out = c.call_json_with_timeout(&path, &json!({"n": n}), Duration::from_secs(60)).await;
             (path, out)
         }));
     }
-    let ids = match tokio::task::spawn_blocking(move || seen_rx.recv_timeout(Duration::from_secs(10))).await.unwrap() {
+    let ids = match tokio::task::spawn_blocking(move || seen_rx.recv_timeout(Duration::from_secs(30))).await.unwrap() {
         Ok(ids) => ids,
         Err(_) => return Ok("inconclusive: the scripted server did not see all requests".into()),
     };
     let mut report = Vec::new();
     for colliding_id in [ids[2], ids[0]] {
         let forwarded = repe::Message::builder().id(colliding_id).query_str("/proxied").query_format(repe::QueryFormat::JsonPointer).body_json(&json!({"proxied": true})).unwrap().build();
-        match client.forward_message_with_timeout(&forwarded, Duration::from_millis(500)).await {
+        match client.forward_message_with_timeout(&forwarded, Duration::from_millis(1500)).await {
             Err(repe::RepeError::Io(e)) if e.kind() == std::io::ErrorKind::AlreadyExists => report.push(format!("forward id {colliding_id} refused")),
             other => report.push(format!("forward id {colliding_id}: {:?}", other.map(|m| m.map(|m| m.header.id)))),
         }
